@@ -21,8 +21,8 @@ const (
 	Hour        = stdtime.Hour
 )
 
-// Now returns the zero time: no property depends on wall-clock values.
-func Now() Time { return Time{} }
+// Now is the harness clock as an offset from the zero Time.
+func Now() Time { return Time{}.Add(Duration(zzrt.ClockNow())) }
 
 func Sleep(d Duration) {
 	if d > 0 {
@@ -31,7 +31,7 @@ func Sleep(d Duration) {
 	zzrt.Yield()
 }
 
-func Since(t Time) Duration { return 0 }
+func Since(t Time) Duration { return Now().Sub(t) }
 
 type Ticker struct {
 	C <-chan Time
